@@ -36,7 +36,7 @@ func DefaultPalette() *Palette {
 	return &Palette{
 		Infos:   []*Info{{Title: "My API"}, {Title: "T", Version: "1.0", Desc: "Hello\n  world"}, {Desc: "only text"}},
 		Servers: []*Server{{Name: "@prod", Ann: "Production\u00a0env", BaseURL: "https://x.y/"}, {Name: "@test", BaseURL: "http://t"}},
-		Tags:    []*Tag{{Name: "@cats", Ann: "Cats *", Desc: "About cats"}, {Name: "@big_dogs"}},
+		Tags:    []*Tag{{Name: "@cats", Ann: "Cats *", Desc: "About cats"}, {Name: "@my_dogs"}},
 		Types: []*Type{
 			{Name: "@T1", Ann: "A  type", Body: Body{Kind: "schema", S: sObjRich}},
 			{Name: "@T2", Body: Body{Kind: "regex", Re: "^a+$"}},
@@ -71,9 +71,9 @@ func DefaultPalette() *Palette {
 		},
 		Groups: []*Group{
 			{Path: "/g", Tags: []string{"@cats"}, Methods: []*HTTP{
-				{Method: "GET", Path: "/g", Tags: []string{"@big_dogs"}, Resps: []Resp{{Code: "200", Body: Body{Kind: "any"}}}},
+				{Method: "GET", Path: "/g", Tags: []string{"@my_dogs"}, Resps: []Resp{{Code: "200", Body: Body{Kind: "any"}}}},
 				{Method: "POST", Path: "/g", Resps: []Resp{{Code: "201", Body: Body{Kind: "any"}}}}}},
-			{Path: "/g2/{id}", Tags: []string{"@big_dogs", "@cats"}, Methods: []*HTTP{
+			{Path: "/g2/{id}", Tags: []string{"@my_dogs", "@cats"}, Methods: []*HTTP{
 				{Method: "DELETE", Path: "/g2/{id}", Ann: "drop", Resps: []Resp{{Code: "204", Body: Body{Kind: "empty"}}}}}},
 		},
 		Descs: []string{"gets", "line one\n  line two"},
@@ -311,7 +311,7 @@ func (g *genState) httpVariants(method, path string) {
 	// tags
 	slots = append(slots, []alt{nil,
 		func(h *HTTP) (int, []string) { h.Tags = []string{"@cats"}; return 1, nil },
-		func(h *HTTP) (int, []string) { h.Tags = []string{"@big_dogs", "@cats"}; return 1, nil }})
+		func(h *HTTP) (int, []string) { h.Tags = []string{"@my_dogs", "@cats"}; return 1, nil }})
 	// operation id
 	slots = append(slots, []alt{nil, func(h *HTTP) (int, []string) {
 		h.OpID = "op" + method + pathID(path)
